@@ -469,6 +469,37 @@ func init() {
 		}
 		return Not(lim)
 	}
+	// cosmoslist(q, limited): the Cosmos DB listing - SELECT <the eight result fields> FROM c WHERE c.swarm=@swarm
+	// ORDER BY c.submitTime DESC - followed by OFFSET 0 LIMIT @limit exactly when limited
+	cosmosListRe := regexp.MustCompile(`(?is)^\s*select\s+c\.id\s*,\s*c\.groupID\s*,\s*c\.name\s*,\s*c\.descr\s*,\s*c\.submitTime\s*,\s*c\.stateStatus\s*,\s*c\.stateStart\s*,\s*c\.stateEnd\s+from\s+c\s+where\s+c\.swarm\s*=\s*@swarm\s+order\s+by\s+c\.submitTime\s+desc(\s+offset\s+0\s+limit\s+@limit)?\s*;?\s*$`)
+	var crec func(q, lim *Term) *Term
+	crec = func(q, lim *Term) *Term {
+		if q.Op == "ite" && len(q.Args) == 3 {
+			return Ite(q.Args[0], crec(q.Args[1], lim), crec(q.Args[2], lim))
+		}
+		if q.Op == "select" && len(q.Args) == 2 && q.Args[0].Op == "ite" && len(q.Args[0].Args) == 3 {
+			h := q.Args[0]
+			return Ite(h.Args[0], crec(Select(h.Args[1], q.Args[1]), lim), crec(Select(h.Args[2], q.Args[1]), lim))
+		}
+		qs, ok := strFold(q)
+		if !ok {
+			if os.Getenv("GOVC_DEBUG_SQL") != "" {
+				fmt.Fprintln(os.Stderr, "cosmoslist: not foldable:", q.String())
+			}
+			return UF("cosmosListNewestFirst", "Bool", q, lim)
+		}
+		m := cosmosListRe.FindStringSubmatch(qs)
+		if m == nil {
+			return False
+		}
+		if m[1] != "" {
+			return lim
+		}
+		return Not(lim)
+	}
+	specBuiltins["cosmoslist"] = func(env *SpecEnv, e *Expr) SVal {
+		return SVal{T: crec(env.eval(e.Args[0]).T, env.boolean(e.Args[1]))}
+	}
 	specBuiltins["sqllist"] = func(env *SpecEnv, e *Expr) SVal {
 		return SVal{T: rec(env.eval(e.Args[0]).T, env.boolean(e.Args[1]))}
 	}
